@@ -222,7 +222,7 @@ type history struct {
 func (o hop) human() string {
 	switch o.Op {
 	case "lit":
-		return "literal " + litText(o.Ents) + " " + gval{K: "m", M: o.Ents}.show()
+		return "literal " + c13LitText(o.Ents) + " " + gval{K: "m", M: o.Ents}.show()
 	case "real", "wrap", "struct":
 		return o.Op + " " + gval{K: "m", M: o.Ents}.show()
 	case "func":
@@ -249,7 +249,7 @@ func (o hop) human() string {
 	return o.Op
 }
 
-func litText(es []gkv) string {
+func c13LitText(es []gkv) string {
 	var b strings.Builder
 	b.WriteString("{")
 	for i, e := range es {
@@ -290,7 +290,7 @@ func (o *hop) exec(hs []value.Value) (value.Value, error) {
 			names[i] = fmt.Sprintf("a%d", i)
 			args[i] = e.V.build()
 		}
-		return evalExpr(litText(o.Ents), names, args...)
+		return evalExpr(c13LitText(o.Ents), names, args...)
 	case "real":
 		rm := value.RealMap{}
 		for _, e := range o.Ents {
